@@ -94,7 +94,7 @@ func init() {
 					R.bad("C02.a", "gabi.createChallenge:hash", "exactly one call to common.HashCommit whose result is returned", fmt.Sprintf("found %d calls", n), P.Pos(fn.Pos()))
 					return
 				}
-				seq, ok := seqOf(hc.Call.Args[0])
+				seq, ok := seqOf(callArgs(hc)[0])
 				want := "[arg#0, arg#2..., arg#1]"
 				got := seqString(seq)
 				if !ok {
@@ -102,7 +102,7 @@ func init() {
 				} else {
 					R.decide("C02.a", "gabi.createChallenge:sequence", "hashed sequence is [context, contributions..., nonce]", got == want, "got "+got+" want "+want, P.Pos(hc.Pos()))
 				}
-				R.decide("C02.a", "gabi.createChallenge:issig", "the signature-session flag is passed to HashCommit unchanged", desc(hc.Call.Args[1]) == "arg#3", "got "+desc(hc.Call.Args[1]), P.Pos(hc.Pos()))
+				R.decide("C02.a", "gabi.createChallenge:issig", "the signature-session flag is passed to HashCommit unchanged", desc(callArgs(hc)[1]) == "arg#3", "got "+desc(callArgs(hc)[1]), P.Pos(hc.Pos()))
 				retOK := true
 				for _, r := range returnsOf(fn) {
 					if len(r.Results) != 1 || siteOf(r.Results[0]) != ssa.Value(hc) {
@@ -169,7 +169,7 @@ func init() {
 											continue
 										}
 										k, _ := strconv.Atoi(m[1])
-										args := c.Common().Args
+										args := callArgs(c)
 										if k >= len(args) {
 											okAll = false
 											continue
@@ -193,7 +193,7 @@ func init() {
 								if re == "" {
 									continue
 								}
-								d := desc(c.Common().Args[i])
+								d := desc(callArgs(c)[i])
 								R.decide("C02.f", key+":"+names[i], "createChallenge argument '"+names[i]+"' originates from the caller's own "+names[i], matches(re)(d), "got "+d+" want "+re, P.Pos(c.Pos()))
 							}
 						}
@@ -269,11 +269,11 @@ func noMapOrderRule(P *Program, R *Report, rule string) {
 						switch y := i2.(type) {
 						case *ssa.Call:
 							if isCallTo(y, "builtin:append") {
-								base := desc(y.Call.Args[0])
+								base := desc(callArgs(y)[0])
 								if strings.Contains(base, "[rangekey("+mapDesc+")]") || base == mapDesc+"[*]" {
 									continue // per-key bucket: order inside a bucket is not map order
 								}
-								if appendRootsInside(l, y.Call.Args[0], nil, map[ssa.Value]bool{}) {
+								if appendRootsInside(l, callArgs(y)[0], nil, map[ssa.Value]bool{}) {
 									continue // slice restarts in every iteration of the map loop
 								}
 								if sortedAfterLoop(P, fn, l, y) {
@@ -425,10 +425,10 @@ func proofListVerifyRule(P *Program, R *Report) {
 				if c == nil || !c.Call.IsInvoke() || c.Call.Method.Name() != "VerifyWithChallenge" {
 					return false
 				}
-				if desc(c.Call.Value) != "arg#0[#i]" || desc(c.Call.Args[0]) != "arg#1[#i]" {
+				if desc(c.Call.Value) != "arg#0[#i]" || desc(callArgs(c)[0]) != "arg#1[#i]" {
 					return false
 				}
-				if c.Call.Args[1] != challV {
+				if callArgs(c)[1] != challV {
 					return false
 				}
 				// computed before the loop
@@ -454,7 +454,7 @@ func proofListVerifyRule(P *Program, R *Report) {
 	}
 	run(func() {
 		okAcc, errAcc := AcceptTrue(0), AcceptNilErr(1)
-		contribArg := chall.Call.Args[2]
+		contribArg := callArgs(chall)[2]
 		seq, call, ok := seqThroughCall(P, contribArg)
 		want := "[(call:invoke:gabi.Proof.ChallengeContribution(arg#0[#i],arg#1[#i])#0...)*]"
 		got := seqString(seq)
@@ -562,7 +562,7 @@ func appendRootsInside(l *Loop, v ssa.Value, via *ssa.Phi, seen map[ssa.Value]bo
 		return true
 	case *ssa.Call:
 		if isCallTo(x, "builtin:append") {
-			return appendRootsInside(l, x.Call.Args[0], via, seen)
+			return appendRootsInside(l, callArgs(x)[0], via, seen)
 		}
 		return l.Body[x.Block()] && x.Block() != l.Header
 	case *ssa.Const:
@@ -587,10 +587,10 @@ func sortedAfterLoop(P *Program, fn *ssa.Function, l *Loop, app *ssa.Call) bool 
 		default:
 			return
 		}
-		if deps(P, c.Call.Args[0])[app] {
+		if deps(P, callArgs(c)[0])[app] {
 			// the sort must dominate every other use of the accumulated slice outside the loop
 			ok := true
-			arg := c.Call.Args[0]
+			arg := callArgs(c)[0]
 			for _, r := range referrersOf(arg) {
 				if r == ssa.Instruction(c) || l.Body[r.Block()] {
 					continue
@@ -648,7 +648,23 @@ func noCrossCallStateRuleFor(P *Program, R *Report, rule string, proofTypes map[
 	reach := P.reachableFuncs(entries...)
 	fieldOf := func(addr ssa.Value) (string, bool) {
 		fa, ok := addr.(*ssa.FieldAddr)
-		if !ok || !proofTypes[typeKey(fa.X.Type())] {
+		if !ok {
+			return "", false
+		}
+		// a field of the object, or of a struct held by value inside it
+		owner := false
+		for cur := fa; ; {
+			if proofTypes[typeKey(cur.X.Type())] {
+				owner = true
+				break
+			}
+			inner, isFA := cur.X.(*ssa.FieldAddr)
+			if !isFA {
+				break
+			}
+			cur = inner
+		}
+		if !owner {
 			return "", false
 		}
 		if _, fresh := rootOfAddr(fa.X).(*ssa.Alloc); fresh {
